@@ -628,11 +628,17 @@ def spell(rng, v, tags):
     return text
 
 
+# every enumeration: the valid words, arbitrary words, and NEAR MISSES of the valid words (valid word + suffix,
+# proper prefix of a valid word, other capitalisation) - none of the near misses is a supported value
 ENUM_PATHS = {
-    ("snowing_parameters", "configuration"): ["shelf", "VISF", "jacket", "foo", "Shelf", "visf"],
-    ("snowfall_parameters", "vial_arrangement"): ["square", "hexagonal", "hex", "Square"],
-    ("snowing_parameters", "dimensionality"): ["homogeneous", "spatial_1D", "spatial_2D", "spatial_3D", "0D"],
-    ("vial", "geometry", "shape"): ["cube", "cubic", "cub", "cuboid", "cylinder", "Cube", "cu", "cyl"],
+    ("snowing_parameters", "configuration"): ["shelf", "VISF", "jacket", "foo", "Shelf", "visf",
+                                              "shelf_ramped", "VISF2", "jacketed", "shel", "VIS", "jack", "SHELF", "Jacket"],
+    ("snowfall_parameters", "vial_arrangement"): ["square", "hexagonal", "hex", "Square",
+                                                  "squared", "hexagonal_dense", "squar", "hexa", "HEXAGONAL"],
+    ("snowing_parameters", "dimensionality"): ["homogeneous", "spatial_1D", "spatial_2D", "spatial_3D", "0D",
+                                               "spatial_1D_fine", "homogeneous_lumped", "spatial_2D ", "spatial_",
+                                               "homogen", "Spatial_1D", "spatial_1d", "HOMOGENEOUS"],
+    ("vial", "geometry", "shape"): ["cube", "cubic", "cub", "cuboid", "cylinder", "Cube", "cu", "cyl", "CUBE", " cube"],
 }
 SUPPORTED_COMBOS = [(c, a, dm, s) for c in ("shelf", "VISF", "jacket") for a in ("square", "hexagonal")
                     for dm in ("homogeneous", "spatial_1D", "spatial_2D") for s in ("cube", "cubic", "cub")
@@ -807,7 +813,7 @@ def _zero_cases(rng):
 
 
 def cases(rng, tier):
-    n_struct, n_enum = (260, 90) if tier == "quick" else (4500, None)
+    n_struct, n_enum = (260, 110) if tier == "quick" else (4500, 2500)
     yield dict(kind="meta", yaml=None)
     yield dict(kind="nofile", yaml=None, welltyped=True, dispatch=True)
     for _ in range(n_struct):
